@@ -145,6 +145,9 @@ class Run:
             self.targets[name].cap_fails = dict(t.get('cap_fails') or {})
             if t.get('falsy'):
                 self.targets[name].h_len = 0
+            if t.get('display_name') and hasattr(self.targets[name], 'name'):
+                # several targets carry the same name (names are labels, not identities)
+                self.targets[name].name = t['display_name']
         self.ref = RefMaintainer(float('inf') if case['capacity'] is None else case['capacity'])
         self.bus.attach(self)
         self.failed = False
@@ -341,6 +344,9 @@ def gen_case(rng, tie):
             targets[n]['cap_fails'] = {rng.choice(tags): rng.choice([1, 2, 3])}
         if rng.random() < 0.2:
             targets[n]['falsy'] = True
+    if ntargets >= 2 and rng.random() < 0.25:
+        for n in rng.sample(names, rng.choice([2, ntargets])):
+            targets[n]['display_name'] = 'machine'
     horizon = 20.0
     n_req = rng.randint(5, 40)
     if rng.random() < 0.03:
